@@ -12,6 +12,7 @@ from statham.schema.validation import (
     NoMatch,
     Validator,
 )
+from statham.schema.validation.base import replace_bool
 
 
 T = TypeVar("T")
@@ -220,7 +221,9 @@ class Element(Generic[T]):
             for k, v in vars(x).items()
             if not k.startswith("_") or k == "_properties"
         }
-        return pub_vars(self) == pub_vars(other)
+        # Booleans are aliased at every depth so that literal keyword values
+        # such as `True` and `1` (equal in Python) are told apart.
+        return replace_bool(pub_vars(self)) == replace_bool(pub_vars(other))
 
     @property
     def annotation(self) -> str:
